@@ -391,6 +391,15 @@ def _encode(it, a, k, n):
     if cc in ("utf-8", "utf8"):
         it.ctx.assume(z3.Length(r) >= z3.Length(s.z), "utf8-encode:len>=")
         it.ctx.assume((z3.Length(r) == 0) == (z3.Length(s.z) == 0), "utf8-encode:empty-iff-empty")
+        # UTF-8 is a character-wise code: a constant ASCII tail (head) of the text is the same tail (head) of its encoding
+        parts = list(s.z.children()) if z3.is_app(s.z) and s.z.decl().kind() == z3.Z3_OP_SEQ_CONCAT else []
+        if parts:
+            tail = concrete_str(parts[-1])
+            if tail and all(ord(c) < 128 for c in tail):
+                it.ctx.assume(z3.SuffixOf(z3.StringVal(tail), r), "utf8-encode:ascii-tail-kept")
+            head = concrete_str(parts[0])
+            if head and all(ord(c) < 128 for c in head):
+                it.ctx.assume(z3.PrefixOf(z3.StringVal(head), r), "utf8-encode:ascii-head-kept")
     return VStr(r, "bytes")
 
 
